@@ -69,6 +69,15 @@ def qubitAxis (loc : Coord) : Option Axis := Cubic3D.qubitAxis loc
 def getDeformation (name : String) (axis : Option String) (loc : Coord) : Option PauliMap :=
   Cubic3D.getDeformation "z" name axis loc
 
+/-- an explicit family of `n − k` stabilizer locations whose operators are GF(2)-independent (proved for
+    every size `≥ 1` in `Proofs/LatPlanar3DCodeRank.lean`): vertices, xy faces with `z = 0`, yz faces,
+    xz faces — a sub-list of `stabs` -/
+def rankFamily (Lx Ly Lz : Nat) : List Coord :=
+  grid (range2 2 (2 * (Lx : Int))) (range2 0 (2 * (Ly : Int))) (range2 0 (2 * (Lz : Int))) ++
+  grid (range2 1 (2 * (Lx : Int) + 1)) (range2 1 (2 * (Ly : Int) - 1)) [0] ++
+  grid (range2 2 (2 * (Lx : Int))) (range2 1 (2 * (Ly : Int) - 1)) (range2 1 (2 * (Lz : Int) - 1)) ++
+  grid (range2 1 (2 * (Lx : Int) + 1)) (range2 0 (2 * (Ly : Int))) (range2 1 (2 * (Lz : Int) - 1))
+
 def lattice (Lx Ly Lz : Nat) : Lattice :=
   { qubits := qubits Lx Ly Lz, stabs := stabs Lx Ly Lz, getStab := getStab Lx Ly Lz,
     logX := logX Lx Ly Lz, logZ := logZ Lx Ly Lz }
